@@ -154,7 +154,7 @@ def run(ctx):
 
 
     S = Stream(ctx, 'drv_c02')
-    nkv = 150 if quick else 4000
+    nkv = 150 if quick else 2500
     npts = 0
 
     def guarded(fn):
